@@ -6,11 +6,13 @@ import gen as G
 import codec, prune, wrap
 
 MODEL_TARGETS = ["model/De.vo", "spec/Denote.vo", "spec/Encoding.vo"]
-COQ_TARGETS = ["props/C03.vo"]
+COQ_TARGETS = ["props/C03.vo", "proofs/DeDispatchTie.vo"]
 THEOREMS = [("C03", ["C03_complete", "C03_long", "C03_long_is_crate", "C03_unbounded_refuted", "C03_sound", "C03_malformed_rejected", "C03_boolean_byte",
-                     "C03_invalid_utf8", "C03_union_index", "C03_enum_index", "C03_negative_length", "C03_premature_end", "C03_premature_end_varint", "C03_typed_sound", "C03_typed_sound_datum"])]
-PROOF_FILES = ["proofs/DeProofs.v", "proofs/VarintProofs.v", "proofs/DeSoundBase.v", "proofs/DeSoundMain.v", "proofs/DeSoundReject.v", "proofs/DeSoundProofs.v", "proofs/DeSafetyProofs.v", "proofs/DeSoundTyped.v", "props/C03.v"]
+                     "C03_invalid_utf8", "C03_union_index", "C03_enum_index", "C03_negative_length", "C03_premature_end", "C03_premature_end_varint", "C03_typed_sound", "C03_typed_sound_datum"]),
+            ("DeDispatchTie", ["tie_de_any", "tie_de_ignored", "tie_de_forward", "de_any_is_generated", "de_ignored_is_generated", "de_is_generated"])]
+PROOF_FILES = ["proofs/DeProofs.v", "proofs/VarintProofs.v", "proofs/DeSoundBase.v", "proofs/DeSoundMain.v", "proofs/DeSoundReject.v", "proofs/DeSoundProofs.v", "proofs/DeSafetyProofs.v", "proofs/DeSoundTyped.v", "props/C03.v", "proofs/DeDispatchTie.v"]
 TRUSTED_BASE = [
+    "dispatch tie: translators/gen_dispatch.py (+ rustmatch.py) reads the arms of every deserialize_* method of DatumDeserializer into gen/GenDeDispatch.v; proofs/DeDispatchTie.v proves that model/De.v's de is the interpretation of those regenerated tables (the meaning of each action symbol, act_sem, is hand-written there)",
     "Coq 8.16.1 kernel; no axioms (Print Assumptions: closed)",
     "spec/{AvroValue,Encoding,Denote}.v written from the Avro specification (values, conformance, every legal block layout, expected callbacks); extracted as the oracle",
     "hand-written model/De.v, Reader.v, Varint.v of de/deserializer/**, de/read/mod.rs and integer-encoding 4.1.0, tied by the correspondence run (events, consumed bytes, Ok/Err) over valid and malformed inputs and random targets",
